@@ -23,7 +23,7 @@ func TestVerif(t *testing.T) {
 		Rule: "(a) every DAG of the exhaustive family U(n) x every root x every link-closed destination subset x Concurrency x API variant under the default schedule; " +
 			"(b) every curated collision shape (plus 'urls-layer': an ordinary layer whose descriptor lists mirror URLs next to a foreign layer) x pre-population x Concurrency under every schedule within the deviation bound of three base schedulers, " +
 			"including CopyGraph into a destination that can mount blobs (mounted or copied after all is an input choice per blob and candidate repository; candidate lists: none, one, two, one twice, one and a blank), Copy with MapRoot / target-platform selection, and Copy into a destination that already holds the graph and whose destination reference already names another manifest of it (the unmapped root, or a manifest below the root); " +
-			"(c) curated shapes x ordered pairs of store kinds (memory, OCI layout, file, remote via Referrers API, remote via tag schema). Oracle: generator's own edge list. " +
+			"(c') an index over two manifests whose layers carry the same title and different bytes, into memory, OCI and file destinations (the file store may refuse; success is judged); (c) curated shapes x ordered pairs of store kinds (memory, OCI layout, file, remote via Referrers API, remote via tag schema). Oracle: generator's own edge list. " +
 			"non-trivial = distinct (shape, root, pre-population, variant) scenario in which at least one node was actually transferred",
 		Assumptions: []string{
 			"DAG universe bounded by the grammar in harness/common/dag.go (U(4) quick, U(5) thorough) plus the curated family",
@@ -44,6 +44,7 @@ type scen struct {
 	api      string // graph | copy | copyref | maproot | platform
 	src, dst string // store kinds
 	pretag   int    // 1+id of the node the destination reference points at before the call (0: not tagged)
+	mayFail  bool   // the destination may legitimately refuse the graph: only a reported success is judged
 }
 
 // family is the curated family plus the shapes only this harness adds.
@@ -203,6 +204,17 @@ func jobs(tier string) []driver.Job {
 		for _, api := range []string{"graph-cancelled", "copy-cancelled", "copy-cancel-in-resolve", "copy-cancel-in-maproot"} {
 			s := scen{d: d, root: root, conc: 2, api: api, src: "memory", dst: "memory"}
 			out = append(out, schedJob(s, explore.Bounds{Dev: 1}, []int{0}, 0, 1))
+		}
+	}
+	// (c') two layers with the same file name and different bytes: a file store cannot hold both and may
+	// refuse the copy, but a reported success still means that every node arrived
+	for _, dk := range []string{"memory", "oci", "file"} {
+		for _, api := range []string{"graph", "copy"} {
+			d := Extra("same-title")
+			for _, conc := range []int{1, 2} {
+				s := scen{d: d, root: len(d.Nodes) - 1, conc: conc, api: api, src: "memory", dst: dk, mayFail: dk == "file"}
+				out = append(out, schedJob(s, explore.Bounds{Dev: 1}, []int{0}, 0, 1))
+			}
 		}
 	}
 	// (c) pairing sweep
@@ -372,8 +384,8 @@ func (s scen) make(transferred *bool) (func(), func(*vs.Result) *driver.Fail) {
 			}
 			return nil
 		}
-		if err != nil && cancelled {
-			return nil // a cancelled call may fail; only a reported success is judged
+		if err != nil && (cancelled || s.mayFail) {
+			return nil // a cancelled call may fail, and so may one whose destination cannot hold the graph; only a reported success is judged
 		}
 		if err != nil {
 			return &driver.Fail{Sig: "fault-free copy failed", Detail: s.name() + ": " + err.Error()}
